@@ -159,8 +159,9 @@ NamePool == << <<"p">>, <<"a", ".", "b">>, <<"a", "_", "b">>, <<"a", " ", "b">>,
                <<"f", "(", "x", ")">>, <<"x">>, <<"x", "_", "1">>, <<"c", ":", "d">> >>
 \* a names case: an injective choice of 3 names for  [plain bind, plain bind, expanding bind with 2 values]
 NameCases == {s \in [1..3 -> 1..Len(NamePool)] : s[1] < s[2] /\ s[3] # s[1] /\ s[3] # s[2]}
-KeysOf(s) == {EscName(NamePool[s[1]]), EscName(NamePool[s[2]]), ExpName(NamePool[s[3]], 1), ExpName(NamePool[s[3]], 2)}
-KeysDistinctFor(s) == Cardinality(KeysOf(s)) = 4
+\* the compiled statement is keyed by the three (escaped) names; at execution the expanding one is replaced by its expanded names
+KeysOf(s) == {EscName(NamePool[s[1]]), EscName(NamePool[s[2]]), EscName(NamePool[s[3]]), ExpName(NamePool[s[3]], 1), ExpName(NamePool[s[3]], 2)}
+KeysDistinctFor(s) == Cardinality(KeysOf(s)) = 5
 
 \* ================================================================ trace mode
 ASSUME TLCSet(1, IF Mode = "trace" THEN ndJsonDeserialize(IOEnv.PARAM_TRACES) ELSE <<>>)
@@ -185,8 +186,9 @@ Judge(N) == LET d == [s \in Styles |-> Deliver(s, N)]
     swapseen |-> \A i, j \in 1..Len(q.params) : (i < j /\ q.params[i] # q.params[j]) =>
                      Resolve("qmark", q.sql, [q.params EXCEPT ![i] = q.params[j], ![j] = q.params[i]]) # e,
     qmark |-> q.params, numeric |-> d["numeric"].params]
+\* model mode: Init prints the statement (single-threaded), the Judge step evaluates the theorems (TLC's workers share that work)
 Init == \/ /\ Mode = "model" /\ cs \in Stmts
-           /\ out = Judge(Norm(cs))
+           /\ out = [stmt |-> Norm(cs)]
            /\ PrintT(ToJson(out))
         \/ /\ Mode = "names" /\ cs \in NameCases
            /\ out = [names |-> [i \in 1..3 |-> NamePool[cs[i]]], distinct |-> KeysDistinctFor(cs)]
@@ -197,11 +199,14 @@ Init == \/ /\ Mode = "model" /\ cs \in Stmts
                      accepts |-> Accepts(Traces[cs].style, Traces[cs].sql, Traces[cs].params),
                      style |-> LET phs == PhToks(Traces[cs].sql) IN \A i \in 1..Len(phs) : phs[i].sym = SymOf(Traces[cs].style)]
            /\ PrintT(ToJson(out))
-Next == UNCHANGED vars
+Next == \/ /\ Mode = "model" /\ "correct" \notin DOMAIN out
+           /\ out' = Judge(Norm(cs)) /\ UNCHANGED cs
+        \/ /\ ~(Mode = "model" /\ "correct" \notin DOMAIN out) /\ UNCHANGED vars
 
-DeliveryCorrect == Mode = "model" => out.correct
-ParamsExact == Mode = "model" => out.exact
-SwapSeen == Mode = "model" => out.swapseen
+Judged == Mode = "model" /\ "correct" \in DOMAIN out
+DeliveryCorrect == Judged => out.correct
+ParamsExact == Judged => out.exact
+SwapSeen == Judged => out.swapseen
 KeysDistinct == Mode = "names" => KeysDistinctFor(cs)
 TraceStyle == Mode = "trace" => LET phs == PhToks(Traces[cs].sql) IN \A i \in 1..Len(phs) : phs[i].sym = SymOf(Traces[cs].style)
 TraceCorrect == Mode = "trace" => out.correct
